@@ -287,7 +287,7 @@ pub open spec fn tok_is(i: AssetInfo, who: Seq<char>) -> bool { i matches AssetI
                 let pi = old(deps.storage).pair_info->Some_0;
                 exists|i0: AssetInfo, i1: AssetInfo| #![trigger raw_of(i0, pi.asset_infos[0]), raw_of(i1, pi.asset_infos[1])] raw_of(i0, pi.asset_infos[0]) && raw_of(i1, pi.asset_infos[1])
                     && swap_guarded(deps.querier.world(), env.contract.address.0@, i0, i1, pi.asset_decimals, old(deps.storage).commission->Some_0.0.v(), offer_asset, belief_price, max_spread) })),
-        /*[C17,C10 exec.update-decimals.applies]*/ msg matches ExecuteMsg::UpdateNativeTokenDecimals { denom, asset_decimals } ==> r is Ok ==> old(deps.storage).pair_info is Some && final(deps.storage).pair_info is Some && ({
+        /*[C17,C10,C04,C03,C05,C01,C02 exec.update-decimals.applies]*/ msg matches ExecuteMsg::UpdateNativeTokenDecimals { denom, asset_decimals } ==> r is Ok ==> old(deps.storage).pair_info is Some && final(deps.storage).pair_info is Some && ({
             let o = old(deps.storage).pair_info->Some_0; let n = final(deps.storage).pair_info->Some_0;
             n.asset_infos == o.asset_infos && n.contract_addr == o.contract_addr && n.liquidity_token == o.liquidity_token
             && n.requirements == o.requirements && n.commission_rate == o.commission_rate
@@ -303,7 +303,7 @@ pub open spec fn raw_is_native(a: AssetInfoRaw, denom: Seq<char>) -> bool { a ma
     ensures
         /*[C14,C17 upd.only-factory]*/ r is Ok ==> old(deps.storage).config is Some && info.sender.0@ == old(deps.storage).config->Some_0.halo_factory.0@,
         /*[C14 upd.reject-no-write]*/ r is Err ==> *final(deps.storage) == *old(deps.storage),
-        /*[C17,C10 upd.applies]*/ r is Ok ==> old(deps.storage).pair_info is Some && final(deps.storage).pair_info is Some && ({
+        /*[C17,C10,C04,C03,C05,C01,C02 upd.applies]*/ r is Ok ==> old(deps.storage).pair_info is Some && final(deps.storage).pair_info is Some && ({
             let o = old(deps.storage).pair_info->Some_0; let n = final(deps.storage).pair_info->Some_0;
             n.asset_infos == o.asset_infos && n.contract_addr == o.contract_addr && n.liquidity_token == o.liquidity_token
             && n.requirements == o.requirements && n.commission_rate == o.commission_rate
